@@ -42,7 +42,8 @@ def run (pred : Pred) (s : Nat) (isT : Nat → Option Nat → Bool) (observed : 
       let want := resToV (.ret (oracle pred s isT))
       if observed == want then none else some s!"spec-says {want}"
     else none
-  let chainLen := ((List.range (pred.length + 1)).filter (fun k => (chain pred s k).isSome)).length
+  -- the start has a predecessor (chain position 1 exists)
+  let hasLink := ((pred[s]?).getD none).isSome
   -- shape of the chain from `s`: ends in `none` within `len` links, or runs into a cycle
   let cyclic := (chain pred s pred.length).isSome
   let selfRef := (pred[s]?).getD none == some s
@@ -55,8 +56,9 @@ def run (pred : Pred) (s : Nat) (isT : Nat → Option Nat → Bool) (observed : 
   let tags := [ if applicable then "in-range" else "out-of-range",
                 outcome,
                 if cyclic then (if selfRef then "start-self-ref" else "cyclic") else "acyclic",
-                if pred.length ≤ 2 then "len1-2" else if pred.length ≤ 5 then "len3-5" else "len6+" ]
-  classify observed model propFail (nt := pred.length ≥ 2 && chainLen ≥ 2) tags
+                if pred.length ≤ 2 then "len1-2" else if pred.length ≤ 5 then "len3-5"
+                else if pred.length ≤ 32 then "len6-32" else "len33+" ]
+  classify observed model propFail (nt := pred.length ≥ 2 && hasLink) tags
 
 def hSearchBy : Handler := fun _ args obs =>
   match args with
